@@ -69,6 +69,11 @@ def _elementwise(u, npf):
         if _symbolic_in(x) or any(_symbolic_in(v) for v in a):
             r = u(_obj(x), *[_obj(v) if _symbolic_in(v) else v for v in a])
             return _finish(r, u is _u_isfinite)
+        if isinstance(x, np.ndarray) and x.dtype == object and not a:
+            # an object array that happens to hold only plain numbers (e.g. a float default where the harness passes symbols elsewhere):
+            # numpy's object loops fail on numpy scalars (bool - bool); evaluate on floats and hand back an object array
+            r = npf(x.astype(np.float64), **kw)
+            return sym_array(r) if u is not _u_isfinite else r
         return npf(x, *a, **kw)
     return f
 
